@@ -255,6 +255,88 @@ theorem C16_constant_bounds (h : HCfg) :
     simp only [Bool.and_eq_true, decide_eq_true_eq] at hs
     exact hs.2
 
+/-! ## `UMCTL SETCLUSTER`: the `RangeMap` of a tagged slot range -/
+
+/-- **C16_rangemap (full statement)** — with f16e.diff, `RangeMap::from` is total on every range list
+(sorted or not, any slot numbers, with or without overflow checks), allocates at most `SLOT_NUM`
+flags and walks at most `SLOT_NUM` slots per range. -/
+theorem C16_rangemap (oc : Bool) (rs : List Um.Proto.Range) :
+    (rangeMapFrom true oc rs).out.Good ∧ (rangeMapFrom true oc rs).mapLen ≤ 16384 ∧
+    (rangeMapFrom true oc rs).steps ≤ rs.length * 16384 := by
+  have hS : SLOT_NUM = 16384 := by decide
+  unfold rangeMapFrom
+  simp only [hS]
+  have hsum : ((rs.map fun r : Um.Proto.Range =>
+      if r.s ≤ (if true = true then min r.e (16384 - 1) else r.e)
+      then (if true = true then min r.e (16384 - 1) else r.e) - r.s + 1 else 0)).sum ≤ rs.length * 16384 := by
+    apply sum_map_le
+    intro r _
+    simp only [if_true]
+    split <;> omega
+  split
+  · rename_i mn mx h1 h2
+    have hmx : mx < 16384 := by
+      cases hl : rs.getLast? with
+      | none => simp [hl] at h2
+      | some r =>
+        simp only [hl, Option.bind_some] at h2
+        split at h2
+        · simp at h2
+        · simp only [Option.some.injEq] at h2; omega
+    split
+    · exact ⟨good_reply _, by simp only; omega, hsum⟩
+    · simp only [if_true]
+      exact ⟨good_reply _, by simp, hsum⟩
+  · exact ⟨good_reply _, by simp, hsum⟩
+
+/-- **C16_rangemap_partial** — any variant: a list whose first start is not above its last end and
+whose ends are all below `SLOT_NUM` (what `compact` yields for slot numbers in range) is handled
+without panic in at most `SLOT_NUM` steps per range. -/
+theorem C16_rangemap_partial (b oc : Bool) (rs : List Um.Proto.Range)
+    (hend : ∀ r ∈ rs, r.e < 16384)
+    (hord : ∀ f l, rs.head? = some f → rs.getLast? = some l → f.s ≤ l.e) :
+    (rangeMapFrom b oc rs).out.Good ∧ (rangeMapFrom b oc rs).steps ≤ rs.length * 16384 := by
+  have hS : SLOT_NUM = 16384 := by decide
+  unfold rangeMapFrom
+  simp only [hS]
+  have hsum : ((rs.map fun r : Um.Proto.Range =>
+      if r.s ≤ (if b = true then min r.e (16384 - 1) else r.e)
+      then (if b = true then min r.e (16384 - 1) else r.e) - r.s + 1 else 0)).sum ≤ rs.length * 16384 := by
+    apply sum_map_le
+    intro r hr
+    have := hend r hr
+    split <;> (split <;> omega)
+  split
+  · rename_i mn mx h1 h2
+    have hle : mn ≤ mx := by
+      cases hf : rs.head? with
+      | none => simp [hf] at h1
+      | some f =>
+        cases hl : rs.getLast? with
+        | none => simp [hl] at h2
+        | some l =>
+          have := hord f l hf hl
+          simp only [hf, Option.bind_some] at h1
+          simp only [hl, Option.bind_some] at h2
+          split at h1
+          · simp at h1
+          · split at h2
+            · simp at h2
+            · simp only [Option.some.injEq] at h1 h2; omega
+    simp only [hle, if_true]
+    exact ⟨good_reply _, hsum⟩
+  · exact ⟨good_reply _, hsum⟩
+
+/-- **negations on the current tree**: F16d — the compressed form hands a descending list
+`[300-300, 100-199]` to `RangeMap::from` uncompacted: `199 - 300 + 1` wraps, `vec![false; n]`
+panics; F16e — `MIGRATING 1 0-999999999999999` (textual form, compaction does not help) makes
+the fill loop walk 10¹⁵ numbers while `set_meta` holds the metadata lock. -/
+theorem C16_rangemap_full_false :
+    (rangeMapFrom false false (rangesSeen false false [⟨300, 300⟩, ⟨100, 199⟩])).out = .panic "capacity overflow" ∧
+    (rangeMapFrom false false (rangesSeen false true [⟨300, 300⟩, ⟨100, 199⟩])).out = .reply "range-map" ∧
+    (rangeMapFrom false false (rangesSeen false true [⟨0, 999999999999999⟩])).steps = 1000000000000000 := by
+  decide +kernel
+
 /-! ## non-vacuity -/
 
 /-- the patched variants exist and the hypotheses of the full statements are met by them -/
@@ -272,6 +354,10 @@ example : handleCmd ⟨false, true, false, true, true, 1024⟩
   decide +kernel
 example : handleCmd (hPinned false) (some [bulk "BLPOP", bulk "k", bulk "1"]) = some ⟨.poll 1 1, 14⟩ := by
   decide +kernel
+example : (rangeMapFrom true false [⟨300, 300⟩, ⟨100, 199⟩]).out = .reply "range-map" := by decide +kernel
+example : (rangeMapFrom false false (rangesSeen true false [⟨300, 300⟩, ⟨100, 199⟩])).contains = 101 := by
+  decide +kernel
+example : (rangeMapFrom true false [⟨5, 18446744073709551615⟩, ⟨7, 9⟩]).contains = 5 := by decide +kernel
 example : (handleSlowlogAdd ⟨false, true, false, true, true, 1024⟩
     [bulk "ECHO", some (List.replicate 99 97 ++ [195, 169, 97])]).out = .reply "recorded" := by decide +kernel
 
